@@ -254,12 +254,16 @@ class P(Prop):
         rng = self.rng
         for i in range(n):
             if i % 2 == 0:
-                self.check_unroll(*self.gen_unroll())
+                cu, su, stu = self.gen_unroll()
+                self.check_unroll(cu, su, stu)
+                self.again_after_edit(cu, lambda: self.check_unroll(cu, su, stu), p=0.25, exclude=("relabel", "output"))
             else:
                 c = self.gen_seq()
                 flops = sorted(c.blackboxes)
                 iv = self.rand_iv(flops)
-                self.check_seq(c, rng.randint(1, 4), rng.random() < 0.5, iv, rng.random() < 0.5)
+                sq = (rng.randint(1, 4), rng.random() < 0.5, iv, rng.random() < 0.5)
+                self.check_seq(c, *sq)
+                self.again_after_edit(c, lambda: self.check_seq(c, *sq), p=0.3, exclude=("relabel",))
             if self.too_many():
                 break
 
